@@ -125,7 +125,10 @@ def rand_subtable(r, ltype, n, nlookups, self_idx, classdefs):
     raise ValueError(ltype)
 
 
-def rand_recipe(r, types=(1, 2, 3, 4, 5, 6, 8), max_lookups=5, with_gdef=None, flags=True):
+def rand_recipe(r, types=(1, 2, 3, 4, 5, 6, 8), max_lookups=5, with_gdef=None, flags=True, expansion=None):
+    """`expansion=(num, den)`: that share of the recipes comes from the expansion profile (`expansion_recipe`)."""
+    if expansion is not None and r.chance(*expansion):
+        return expansion_recipe(r)
     n = r.range(8, 20)
     rec = {"num_glyphs": n, "cmap": "pua", "advances": [500 + 10 * g for g in range(n)]}
     with_gdef = r.chance(2, 3) if with_gdef is None else with_gdef
@@ -178,6 +181,196 @@ def rand_recipe(r, types=(1, 2, 3, 4, 5, 6, 8), max_lookups=5, with_gdef=None, f
         feats.append({"tag": t, "lookups": sorted(set(r.sample(pool, r.range(1, nl))))})
     rec["gsub"] = {"features": feats, "lookups": lookups}
     return rec
+
+
+# ------------------------------------------------------------------------------------------------
+# "expansion" profile: contextual and chained rules (all three formats) whose sequence-lookup records CHANGE THE LENGTH of
+# the matched sequence while later records of the same rule still address it.  OpenType: the sequenceIndex of a record
+# refers to the glyph sequence as the earlier records left it, so after a 1 -> k multiple substitution the k-1 added glyphs
+# are positions of their own and the original glyphs behind them have moved up by k-1.  The generator keeps a symbolic copy
+# of the matched sequence while it writes the records of a rule, so that later records can be aimed at every place of the
+# grown sequence: the first / middle / LAST added glyph, the shifted originals, one past the end.  Every nested lookup that
+# follows a growth covers all glyphs of the sequence as it then stands and gives each a target of its own (fresh glyph ids),
+# so the output tells which position a record really hit.  Record orders: grow-mark, grow-mark-mark, grow-grow-mark (the
+# second growth may start from an added glyph), mark-grow-mark, and — outside the specification's domain, for the
+# interpreter model only — delete / ligate before or after a growth.
+
+EXP_MAIN_TAGS = ["ccmp", "liga", "calt", "rlig", "locl"]           # on by default in the default shaper
+EXP_ORDERS = ["GS", "GS", "GSS", "GGS", "GSGS", "SGS", "GSSS"]
+EXP_ORDERS_SHRINK = ["DGS", "GDS", "LGS", "GLS", "GSDS", "GSLS"]
+
+
+def expansion_recipe(r, shrink=None, alternates=True):
+    nb = r.range(4, 6)
+    base = list(range(1, nb + 1))
+    nxt = [nb + 1]
+
+    def fresh():
+        nxt[0] += 1
+        return nxt[0] - 1
+
+    shrink = r.chance(1, 3) if shrink is None else shrink
+    nmain = r.range(1, 2)
+    helpers = []                         # nested lookups; index in the lookup list = nmain + position here
+    seqs = []
+
+    def add_helper(lk):
+        helpers.append(lk)
+        return nmain + len(helpers) - 1
+
+    def grow(cur, i):
+        """a multiple substitution 1 -> 3..5 (sometimes 2) for cur[i] and a few other glyphs; returns (lookup index, sequence)"""
+        srcs = sorted(set([cur[i]] + r.sample(base, r.range(0, 2)) + r.sample(cur, r.range(0, min(2, len(cur))))))
+        seqmap = {g: [fresh() for _ in range(r.choice([3, 3, 3, 4, 4, 5, 2]))] for g in srcs}
+        li = add_helper({"type": 2, "flag": 0, "subtables": [{"coverage": srcs, "sequences": [seqmap[g] for g in srcs]}]})
+        return li, seqmap[cur[i]]
+
+    def marker(cur):
+        """a single / alternate / 1->1 or 1->2 multiple substitution covering EVERY glyph of the current sequence (and the
+        other base glyphs), each with targets of its own; returns (lookup index, {glyph: [targets]})"""
+        srcs = sorted(set(cur) | set(r.sample(base, r.range(0, len(base)))))
+        kind = r.choice(["single2", "single2", "single1", "alt", "multi"])
+        if kind == "alt" and not alternates:
+            kind = "single2"
+        if kind == "single1":
+            delta = nxt[0] - srcs[0]
+            tm = {g: [g + delta] for g in srcs}
+            nxt[0] = srcs[-1] + delta + 1
+            st, t = {"format": 1, "coverage": srcs, "delta": delta}, 1
+        elif kind == "single2":
+            tm = {g: [fresh()] for g in srcs}
+            st, t = {"format": 2, "coverage": srcs, "subst": [tm[g][0] for g in srcs]}, 1
+        elif kind == "alt":
+            alts = {g: [fresh() for _ in range(r.range(1, 3))] for g in srcs}
+            tm = {g: [alts[g][0]] for g in srcs}                  # feature value 1 selects the first alternate
+            st, t = {"coverage": srcs, "alternates": [alts[g] for g in srcs]}, 3
+        else:
+            tm = {g: [fresh() for _ in range(r.choice([1, 1, 2]))] for g in srcs}
+            st, t = {"coverage": srcs, "sequences": [tm[g] for g in srcs]}, 2
+        return add_helper({"type": t, "flag": 0, "subtables": [st]}), tm
+
+    def records(inp):
+        cur = list(inp)
+        recs = []
+        added = []                        # positions of the glyphs the last growth added
+        order = r.choice(EXP_ORDERS_SHRINK if shrink and r.chance(2, 3) else EXP_ORDERS)
+        for step in order:
+            if step == "G":
+                cands = list(range(len(cur)))
+                i = r.choice(added) if added and r.chance(1, 3) else r.choice(cands)
+                li, seq = grow(cur, i)
+                recs.append((i, li))
+                cur[i:i + 1] = seq
+                added = list(range(i + 1, i + len(seq)))
+            elif step == "S":
+                li, tm = marker(cur)
+                k = r.below(10)
+                if added and k < 5:
+                    # one of the added glyphs, the later ones (second, ..., LAST) preferred
+                    i = added[-1] if k < 2 else r.choice(added[1:] or added)
+                elif added and k < 7 and added[-1] + 1 < len(cur):
+                    i = r.range(added[-1] + 1, len(cur) - 1)      # an original glyph behind the growth (moved up)
+                elif k == 9:
+                    i = len(cur) + r.below(2)                      # one / two past the end: ignored
+                else:
+                    i = r.below(len(cur))
+                recs.append((i, li))
+                if i < len(cur):
+                    t = tm[cur[i]]
+                    cur[i:i + 1] = t
+                    if len(t) > 1:
+                        added = list(range(i + 1, i + len(t)))
+            elif step == "D" and len(cur) >= 2:
+                i = r.below(len(cur))
+                recs.append((i, add_helper({"type": 2, "flag": 0, "subtables": [{"coverage": [cur[i]], "sequences": [[]]}]})))
+                del cur[i]
+                added = [p - 1 if p > i else p for p in added if p != i]
+            elif step == "L" and len(cur) >= 2:
+                i = r.below(len(cur) - 1)
+                lig = fresh()
+                recs.append((i, add_helper({"type": 4, "flag": 0, "subtables": [
+                    {"coverage": [cur[i]], "ligsets": [[{"components": [cur[i + 1]], "glyph": lig}]]}]})))
+                cur[i:i + 2] = [lig]
+                added = [p - 1 if p > i + 1 else p for p in added if p != i + 1]
+            if helpers and r.chance(1, 12):
+                recs.append((r.below(len(cur) + 1), nmain + r.below(len(helpers))))     # any helper, anywhere
+        return recs
+
+    def cov_with(g):
+        return sorted(set([g] + r.sample(base, r.range(0, 2))))
+
+    def subtable(chain):
+        inp = [r.choice(base) for _ in range(r.choice([1, 2, 2, 3, 3]))]
+        bt = [r.choice(base) for _ in range(r.choice([0, 0, 1, 2]))] if chain else []
+        la = [r.choice(base) for _ in range(r.choice([0, 0, 1, 2]))] if chain else []
+        seqs.append(list(reversed(bt)) + inp + la)
+        recs = records(inp)
+        f = r.range(1, 3)
+        if f == 1:
+            ru = {"input": inp[1:], "lookups": recs}
+            if chain:
+                ru["backtrack"], ru["lookahead"] = bt, la
+            return {"format": 1, "coverage": [inp[0]], "rulesets": [[ru]]}
+        if f == 2:
+            cds = [{g: r.range(1, 3) for g in base if r.chance(3, 4)} for _ in range(3)]
+            icd = cds[0]
+            ncls = max(icd.values(), default=0) + 1
+            ru = {"input": [icd.get(g, 0) for g in inp[1:]], "lookups": recs}
+            sets = [None] * ncls
+            sets[icd.get(inp[0], 0)] = [ru]
+            if not chain:
+                return {"format": 2, "coverage": cov_with(inp[0]), "classdef": icd, "classsets": sets}
+            bcd, lcd = r.choice(cds), r.choice(cds)
+            ru["backtrack"] = [bcd.get(g, 0) for g in bt]
+            ru["lookahead"] = [lcd.get(g, 0) for g in la]
+            return {"format": 2, "coverage": cov_with(inp[0]), "backtrack_classdef": bcd, "input_classdef": icd,
+                    "lookahead_classdef": lcd, "classsets": sets}
+        st = {"format": 3, "coverages": [cov_with(g) for g in inp], "lookups": recs}
+        if chain:
+            st["backtrack"] = [cov_with(g) for g in bt]
+            st["lookahead"] = [cov_with(g) for g in la]
+        return st
+
+    mains = []
+    for _ in range(nmain):
+        chain = r.chance(1, 2)
+        mains.append({"type": 6 if chain else 5, "flag": 0, "subtables": [subtable(chain) for _ in range(r.range(1, 2))]})
+    n = nxt[0] + 1
+    rec = {"num_glyphs": n, "cmap": "pua", "advances": [500 + (g % 50) for g in range(n)], "seqs": seqs, "text_glyphs": base,
+           "profile": "expansion"}
+    if r.chance(1, 3):
+        # GDEF: a base glyph or two and some of the produced glyphs are marks; the contextual lookups may ignore marks (the
+        # added glyphs are positions of the sequence whether or not the lookup would have skipped them)
+        marks = set(r.sample(base, r.range(0, 2))) | {g for g in range(nb + 1, n) if r.chance(1, 5)}
+        rec["gdef"] = {"classes": {g: (3 if g in marks else r.choice([1, 1, 2])) for g in range(1, n) if g in marks or r.chance(5, 6)}}
+        for lk in mains:
+            if r.chance(1, 2):
+                lk["flag"] = 8
+    tags = r.sample(EXP_MAIN_TAGS, nmain) if r.chance(2, 3) else [r.choice(EXP_MAIN_TAGS)]
+    feats = [{"tag": t, "lookups": [i for i in range(nmain) if len(tags) == 1 or i == k]} for k, t in enumerate(tags)]
+    extra = [i for i in range(nmain, nmain + len(helpers)) if r.chance(1, 8)]
+    if extra:
+        feats.append({"tag": r.choice(["ss01", "ss02", "salt"]), "lookups": extra})     # some helpers also run on their own
+    rec["gsub"] = {"features": feats, "lookups": mains + helpers}
+    return rec
+
+
+def rand_glyphs(r, rec, k):
+    """k glyph ids for a text over the font: uniform, or — when the recipe names the sequences its rules wait for — those
+    sequences strung together with the recipe's text glyphs in between"""
+    n = rec["num_glyphs"]
+    if not rec.get("seqs"):
+        return [r.range(1, n - 1) for _ in range(k)]
+    alpha = rec.get("text_glyphs") or list(range(1, n))
+    gl = []
+    while len(gl) < k:
+        if r.chance(3, 4):
+            gl += r.choice(rec["seqs"])
+        if r.chance(1, 2):
+            gl.append(r.choice(alpha))
+        if r.chance(1, 12):
+            gl.append(r.range(1, n - 1))
+    return gl[:max(k, 1)]
 
 
 # ------------------------------------------------------------------------------------------------
@@ -371,8 +564,9 @@ def rand_buffer(r, rec, length=None):
     # bias towards glyphs that occur in coverages
     items = []
     cl = 0
+    hinted = rand_glyphs(r, rec, k) if rec.get("seqs") else None
     for i in range(k):
-        g = r.range(1, n - 1)
+        g = hinted[i] if hinted is not None else r.range(1, n - 1)
         mask = 0xFFFFFFF8 if r.chance(3, 4) else (r.next() & 0xFFFFFFF8)
         uprops = 0
         if r.chance(1, 10):
@@ -400,3 +594,154 @@ def user_features(r, rec):
             else:
                 feats.append((f["tag"], v, 0, 0xFFFFFFFF))
     return ",".join(f"{tag_hex(t)}:{v}:{s}:{e}" for t, v, s, e in feats) or "-"
+
+
+# ------------------------------------------------------------------------------------------------
+# "malformed but accepted" tables: coverage and class-definition tables written in ways the OpenType text forbids and
+# no parser rejects — glyph arrays that are not sorted or hold duplicates, range records that are unsorted, overlap, repeat
+# or have start > end.  `Coverage::get` / `ClassDef::get` are binary searches: on such a table they still find SOME of the
+# entries, and whatever they find decides where a lookup acts.  Everything derived from the tables by another route (the
+# lookup digests built by `collect`, caches) has to agree with what the searches find.  The functions rewrite a fontbuild
+# recipe in place into "raw" coverages / class definitions of the same glyph sets (arrays parallel to a coverage keep
+# their length; which entry a glyph then gets is whatever the font says — the streams that use this compare the crate
+# with itself, never with a model of well-formed fonts).
+
+COV_KEYS = ("coverage", "mark_coverage", "base_coverage", "lig_coverage", "mark1_coverage", "mark2_coverage")
+COVLIST_KEYS = ("coverages", "input", "backtrack", "lookahead")
+CLASSDEF_KEYS = ("classdef", "backtrack_classdef", "input_classdef", "lookahead_classdef", "classdef1", "classdef2")
+MALFORMED_KINDS = ["array-shuffled", "array-rotated", "array-reversed", "array-duplicates", "array-one-descent",
+                   "ranges-shuffled", "ranges-overlapping", "ranges-inverted", "ranges-nested-duplicate", "well-formed"]
+
+
+def _runs(gs):
+    runs = []
+    for g in gs:
+        if runs and g == runs[-1][1] + 1:
+            runs[-1][1] = g
+        else:
+            runs.append([g, g])
+    return [tuple(x) for x in runs]
+
+
+def malformed_coverage(r, c, stats=None, maxgid=65535):
+    """the glyph set of recipe coverage `c` written in one of MALFORMED_KINDS (a recipe coverage with "raw": True)"""
+    gs = fontbuild.coverage_order(c)
+    if not gs or (isinstance(c, dict) and c.get("raw")):
+        return c
+    kind = r.choice(MALFORMED_KINDS)
+    if stats is not None:
+        stats[kind] = stats.get(kind, 0) + 1
+    arr = lambda xs: {"glyphs": list(xs), "format": 1, "raw": True}
+    rng = lambda rs: {"ranges": [tuple(x) for x in rs], "format": 2, "raw": True}
+    if kind == "well-formed":
+        return c
+    if kind == "array-shuffled":
+        return arr(r.shuffle(gs))
+    if kind == "array-rotated":
+        j = r.range(1, len(gs)) % len(gs)
+        return arr(gs[j:] + gs[:j])
+    if kind == "array-reversed":
+        return arr(gs[::-1])
+    if kind == "array-duplicates":
+        out = list(gs)
+        for _ in range(r.range(1, 3)):
+            out.insert(r.below(len(out) + 1), r.choice(gs))
+        return arr(out)
+    if kind == "array-one-descent":
+        out = list(gs)
+        g = out.pop(r.below(len(out)))
+        out.insert(r.choice([0, len(out), r.below(len(out) + 1)]), g)
+        return arr(out)
+    runs = _runs(gs)
+    if kind == "ranges-shuffled":
+        return rng(r.shuffle(runs))
+    if kind == "ranges-overlapping":
+        return rng([(a, min(maxgid, b + r.range(0, 3))) for a, b in runs] + ([(runs[0][0], runs[-1][1])] if r.chance(1, 3) else []))
+    if kind == "ranges-inverted":
+        out = list(runs)
+        for _ in range(r.range(1, 2)):
+            a, b = r.choice(gs), r.choice(gs)
+            a, b = max(a, b) + r.below(2), min(a, b)
+            out.insert(r.below(len(out) + 1), (a, b))          # start > end (or a one-glyph range when equal)
+        return rng(out)
+    out = list(runs)
+    a, b = r.choice(runs)
+    out.insert(r.below(len(out) + 1), (a, b))                  # the same range twice
+    c0 = r.range(a, b)
+    out.insert(r.below(len(out) + 1), (c0, r.range(c0, b)))     # a range inside another
+    return rng(out)
+
+
+def malformed_classdef(r, cd, stats=None):
+    """{gid: class} written as format-2 range records that are shuffled / overlap with different classes / are inverted, or
+    as a format-1 array; other class definitions are returned unchanged"""
+    if not isinstance(cd, dict) or not cd or any(k in cd for k in ("format", "map", "ranges", "classes")):
+        return cd
+    items = sorted((int(g), int(c)) for g, c in cd.items() if int(c) != 0)
+    if not items:
+        return cd
+    rs = []
+    for g, c in items:
+        if rs and rs[-1][1] + 1 == g and rs[-1][2] == c:
+            rs[-1][1] = g
+        else:
+            rs.append([g, g, c])
+    rs = [tuple(x) for x in rs]
+    kind = r.choice(["cd-shuffled", "cd-overlapping", "cd-inverted", "cd-format1", "cd-well-formed", "cd-well-formed"])
+    if stats is not None:
+        stats[kind] = stats.get(kind, 0) + 1
+    if kind == "cd-shuffled":
+        return {"format": 2, "ranges": r.shuffle(rs)}
+    if kind == "cd-overlapping":
+        return {"format": 2, "ranges": [(a, b + r.range(0, 3), c) for a, b, c in rs] + [(rs[0][0], rs[-1][1], r.range(1, 3))]}
+    if kind == "cd-inverted":
+        out = list(rs)
+        a, b, c = r.choice(rs)
+        out.insert(r.below(len(out) + 1), (b + 1, a, c))
+        return {"format": 2, "ranges": out}
+    if kind == "cd-format1":
+        return {"format": 1, "map": dict(items)}
+    return cd
+
+
+def malform_subtable(r, st, stats=None):
+    if not isinstance(st, dict):
+        return
+    if isinstance(st.get("extension"), dict):
+        malform_subtable(r, st["extension"], stats)
+        return
+    for k in COV_KEYS:
+        if st.get(k) is not None:
+            st[k] = malformed_coverage(r, st[k], stats)
+    for k in COVLIST_KEYS:
+        v = st.get(k)
+        if isinstance(v, list) and v and all(isinstance(e, (list, tuple, dict)) for e in v):
+            st[k] = [malformed_coverage(r, e, stats) for e in v]
+    for k in CLASSDEF_KEYS:
+        if st.get(k) is not None:
+            st[k] = malformed_classdef(r, st[k], stats)
+
+
+def malform_recipe(r, rec, stats=None, extension=(1, 5)):
+    """rewrites every coverage / class definition of the recipe's GSUB, GPOS and GDEF (see above); a share of the lookups is
+    wrapped into extension lookups (GSUB type 7 / GPOS type 9)"""
+    for key, ext in (("gsub", 7), ("gpos", 9)):
+        t = rec.get(key)
+        if not t:
+            continue
+        for lk in t["lookups"]:
+            for st in lk["subtables"]:
+                malform_subtable(r, st, stats)
+            if lk["type"] != ext and r.chance(*extension):
+                lk["subtables"] = [{"extension": st, "ext_type": lk["type"]} for st in lk["subtables"]]
+                lk["type"] = ext
+                if stats is not None:
+                    stats["extension-lookup"] = stats.get("extension-lookup", 0) + 1
+    gd = rec.get("gdef")
+    if gd:
+        if gd.get("mark_sets"):
+            gd["mark_sets"] = [malformed_coverage(r, c, stats) for c in gd["mark_sets"]]
+        for k in ("classes", "mark_attach"):
+            if gd.get(k):
+                gd[k] = malformed_classdef(r, gd[k], stats)
+    return rec
